@@ -96,3 +96,14 @@ Definition run_c09_uai_mn (s : sx) : sx :=
                          of_list (fun p => SL [of_nat (fst p); of_nat (uai_num vs (fst p))]) (uai_domain_mn m)])
   | None => bad_request
   end.
+
+(* [ext; filetype] -> [format written by save or []; format parsed by load or []] *)
+Definition run_c09_dispatch (s : sx) : sx :=
+  match s with
+  | SL [se; sf] =>
+      match sx_nat se, sx_nat sf with
+      | Some e, Some f => sx_ok (SL [of_option of_nat (save_format e f); of_option of_nat (load_format e f)])
+      | _, _ => bad_request
+      end
+  | _ => bad_request
+  end.
